@@ -84,13 +84,16 @@ def ordered {K V : Type} [DecidableEq K] [DecidableEq V] (cmp : K → K → Orde
         | none => bad
       | "clear", [] => (sl.set! i [], "ok 0")
       | "clone", [t] => match slotOf t with
-        | some j => (sl.set! j a, s!"ok {a.length}")
+        | some j => let c := Map.clone a; (sl.set! j c, s!"ok {c.length}")
         | none => bad
       | "add", [t] => match slotOf t with
         | some j => match Map.add cmp dflt a (sl.getD j []) with
           | some a' => (sl.set! i a', s!"ok {a'.length}")
           | none => oob
         | none => bad
+      | "addself", [] => match Map.add cmp dflt a a with
+        | some a' => (sl.set! i a', s!"ok {a'.length}")
+        | none => oob
       | "eq", [t] => match slotOf t with
         | some j => (sl, b01 (Map.eq a (sl.getD j [])))
         | none => bad
@@ -109,7 +112,7 @@ def hashed {K V : Type} [DecidableEq K] [DecidableEq V] (h : K → Nat) (kc : Co
     match slotOf s with
     | none => bad
     | some i =>
-      let a := sl.getD i (HashMap.empty 256)
+      let a := sl.getD i (HashMap.empty Gen.HashMap.defaultBuckets)
       match op, args with
       | "new", [n] => match n.toNat? with
         | some n => if n < 1 ∨ n > 65536 then bad else (sl.set! i (HashMap.empty (HashMap.nextPoT n)), "ok 0")
@@ -146,9 +149,11 @@ def hashed {K V : Type} [DecidableEq K] [DecidableEq V] (h : K → Nat) (kc : Co
         | some j => let c := HashMap.dup h dflt a; (sl.set! j c, s!"ok {c.n}")
         | none => bad
       | "eq", [t] => match slotOf t with
-        | some j => (sl, b01 (HashMap.eq h a (sl.getD j (HashMap.empty 256))))
+        | some j => (sl, b01 (HashMap.eq h a (sl.getD j (HashMap.empty Gen.HashMap.defaultBuckets))))
         | none => bad
       | "len", [] => (sl, toString a.n)
+      | "raw", [] =>
+        (sl, join (toString a.buckets.length :: (HashMap.enum a).map fun kv => kc.shw kv.1 ++ ":" ++ vc.shw kv.2))
       | "dump", [] =>
         let es := sortBy (fun x y => kc.less x.1 y.1) (HashMap.enum a)
         (sl, join (toString a.n :: es.map fun kv => kc.shw kv.1 ++ ":" ++ vc.shw kv.2))
@@ -163,7 +168,7 @@ def dumpSet {K : Type} (kc : Codec K) (a : HashMap.HSet K) : String :=
 def sets {K : Type} [DecidableEq K] (h : K → Nat) (kc : Codec K)
     (sl : Array (HashMap.HSet K)) (ts : List String) : Array (HashMap.HSet K) × String :=
   let bad := (sl, "bad-op")
-  let E : HashMap.HSet K := HashMap.empty 256
+  let E : HashMap.HSet K := HashMap.empty Gen.HashMap.defaultBuckets
   match ts with
   | op :: s :: args =>
     match slotOf s with
@@ -190,6 +195,8 @@ def sets {K : Type} [DecidableEq K] (h : K → Nat) (kc : Codec K)
       | "from" , ks => match ks.mapM kc.parse with
         | some xs => let a' := HashMap.sFromList h xs; (sl.set! i a', s!"ok {a'.n}")
         | none => bad
+      | "addself", [] => let a' := HashMap.sAddAll h a a; (sl.set! i a', s!"ok {a'.n}")
+      | "raw", [] => (sl, join (toString a.buckets.length :: (HashMap.sArray a).map kc.shw))
       | "addset", [t] => match slotOf t with
         | some j =>
           let other := HashMap.sAddAll h E (sl.getD j E)
@@ -229,8 +236,8 @@ structure St where
 
 def init : St :=
   { mi := Array.replicate NS [], ds := Array.replicate NS [],
-    hi := Array.replicate NS (HashMap.empty 256), hs := Array.replicate NS (HashMap.empty 256),
-    si := Array.replicate NS (HashMap.empty 256), ss := Array.replicate NS (HashMap.empty 256) }
+    hi := Array.replicate NS (HashMap.empty Gen.HashMap.defaultBuckets), hs := Array.replicate NS (HashMap.empty Gen.HashMap.defaultBuckets),
+    si := Array.replicate NS (HashMap.empty Gen.HashMap.defaultBuckets), ss := Array.replicate NS (HashMap.empty Gen.HashMap.defaultBuckets) }
 
 def step (st : St) (ts : List String) : St × String :=
   match ts with
